@@ -1,0 +1,446 @@
+// Instrumented stand-ins for the std synchronization primitives, for the external verification
+// harness. Compiled only with --cfg redb_verif; in that build `crate::sync` re-exports these
+// instead of std's. Each primitive wraps the std one and behaves exactly like it unless (a) a
+// hook object has been installed with `install_hooks` and (b) the calling thread has registered
+// itself with `set_thread_controlled(true)`; then every operation is announced to the hook
+// before it happens, which lets a controlled scheduler decide which thread runs next. The hook
+// guarantees that an announced acquisition only returns once the lock is free, so the wrapped std
+// primitive never blocks for a controlled thread.
+
+use core::ops::{Deref, DerefMut};
+use core::sync::atomic::Ordering;
+use std::cell::Cell;
+use std::sync::OnceLock;
+pub(crate) use std::sync::PoisonError;
+use std::sync::{LockResult, TryLockError, TryLockResult};
+
+/// What the verification harness implements. All methods are called on the thread performing the
+/// operation; `acquire_*` and `cv_wait` may block that thread (by parking it inside the hook).
+pub trait SyncHooks: Send + Sync + 'static {
+    /// A new primitive was constructed; returns the id it will be announced with
+    fn new_object(&self, kind: &'static str, type_name: &'static str) -> u64;
+    /// About to lock a mutex. Returns when the calling thread may take it.
+    fn acquire_mutex(&self, id: u64);
+    /// try_lock: returns whether the mutex is granted
+    fn try_acquire_mutex(&self, id: u64) -> bool;
+    fn release_mutex(&self, id: u64);
+    fn acquire_read(&self, id: u64);
+    fn acquire_write(&self, id: u64);
+    fn release_read(&self, id: u64);
+    fn release_write(&self, id: u64);
+    /// The calling thread released `mutex` and waits on `cv`. Returns when it has been notified and
+    /// been granted the mutex again.
+    fn cv_wait(&self, cv: u64, mutex: u64);
+    fn cv_notify(&self, cv: u64, all: bool);
+    /// About to perform an atomic access
+    fn atomic(&self, id: u64, write: bool);
+}
+
+static HOOKS: OnceLock<&'static dyn SyncHooks> = OnceLock::new();
+
+thread_local! {
+    static CONTROLLED: Cell<bool> = const { Cell::new(false) };
+}
+
+/// Installs the process-wide hook object. Can be called once.
+pub fn install_hooks(hooks: &'static dyn SyncHooks) -> bool {
+    HOOKS.set(hooks).is_ok()
+}
+
+/// Marks the calling thread as scheduler-controlled (or not)
+pub fn set_thread_controlled(on: bool) {
+    CONTROLLED.with(|c| c.set(on));
+}
+
+#[inline]
+fn hooks() -> Option<&'static dyn SyncHooks> {
+    if CONTROLLED.with(Cell::get) {
+        HOOKS.get().copied()
+    } else {
+        None
+    }
+}
+
+fn new_id(kind: &'static str, type_name: &'static str) -> u64 {
+    match HOOKS.get() {
+        Some(h) => h.new_object(kind, type_name),
+        None => 0,
+    }
+}
+
+// ---------------------------------------------------------------------------------------- Mutex
+
+pub(crate) struct Mutex<T: ?Sized> {
+    id: u64,
+    inner: std::sync::Mutex<T>,
+}
+
+pub(crate) struct MutexGuard<'a, T: ?Sized + 'a> {
+    lock: &'a Mutex<T>,
+    // None only transiently inside Condvar::wait
+    guard: Option<std::sync::MutexGuard<'a, T>>,
+    announced: bool,
+}
+
+impl<T> Mutex<T> {
+    pub(crate) fn new(data: T) -> Self {
+        Self {
+            id: new_id("mutex", core::any::type_name::<T>()),
+            inner: std::sync::Mutex::new(data),
+        }
+    }
+}
+
+impl<T: ?Sized> Mutex<T> {
+    fn wrap<'a>(
+        &'a self,
+        result: LockResult<std::sync::MutexGuard<'a, T>>,
+        announced: bool,
+    ) -> LockResult<MutexGuard<'a, T>> {
+        match result {
+            Ok(guard) => Ok(MutexGuard {
+                lock: self,
+                guard: Some(guard),
+                announced,
+            }),
+            Err(poison) => Err(PoisonError::new(MutexGuard {
+                lock: self,
+                guard: Some(poison.into_inner()),
+                announced,
+            })),
+        }
+    }
+
+    pub(crate) fn lock(&self) -> LockResult<MutexGuard<'_, T>> {
+        if let Some(h) = hooks() {
+            h.acquire_mutex(self.id);
+            self.wrap(self.inner.lock(), true)
+        } else {
+            self.wrap(self.inner.lock(), false)
+        }
+    }
+
+    pub(crate) fn try_lock(&self) -> TryLockResult<MutexGuard<'_, T>> {
+        if let Some(h) = hooks() {
+            if !h.try_acquire_mutex(self.id) {
+                return Err(TryLockError::WouldBlock);
+            }
+            match self.wrap(self.inner.lock(), true) {
+                Ok(guard) => Ok(guard),
+                Err(poison) => Err(TryLockError::Poisoned(poison)),
+            }
+        } else {
+            match self.inner.try_lock() {
+                Ok(guard) => Ok(MutexGuard {
+                    lock: self,
+                    guard: Some(guard),
+                    announced: false,
+                }),
+                Err(TryLockError::WouldBlock) => Err(TryLockError::WouldBlock),
+                Err(TryLockError::Poisoned(poison)) => {
+                    Err(TryLockError::Poisoned(PoisonError::new(MutexGuard {
+                        lock: self,
+                        guard: Some(poison.into_inner()),
+                        announced: false,
+                    })))
+                }
+            }
+        }
+    }
+
+    #[allow(dead_code)]
+    pub(crate) fn is_poisoned(&self) -> bool {
+        self.inner.is_poisoned()
+    }
+}
+
+impl<T: ?Sized> Deref for MutexGuard<'_, T> {
+    type Target = T;
+
+    fn deref(&self) -> &T {
+        self.guard.as_ref().unwrap()
+    }
+}
+
+impl<T: ?Sized> DerefMut for MutexGuard<'_, T> {
+    fn deref_mut(&mut self) -> &mut T {
+        self.guard.as_mut().unwrap()
+    }
+}
+
+impl<T: ?Sized + core::fmt::Debug> core::fmt::Debug for MutexGuard<'_, T> {
+    fn fmt(&self, f: &mut core::fmt::Formatter<'_>) -> core::fmt::Result {
+        core::fmt::Debug::fmt(&**self, f)
+    }
+}
+
+impl<T: ?Sized> core::fmt::Debug for Mutex<T> {
+    fn fmt(&self, f: &mut core::fmt::Formatter<'_>) -> core::fmt::Result {
+        f.write_str("Mutex { .. }")
+    }
+}
+
+impl<T: ?Sized> core::fmt::Debug for RwLock<T> {
+    fn fmt(&self, f: &mut core::fmt::Formatter<'_>) -> core::fmt::Result {
+        f.write_str("RwLock { .. }")
+    }
+}
+
+impl<T: ?Sized> Drop for MutexGuard<'_, T> {
+    fn drop(&mut self) {
+        // Unlock the std mutex first, then tell the hook
+        self.guard = None;
+        if self.announced
+            && let Some(h) = HOOKS.get()
+        {
+            h.release_mutex(self.lock.id);
+        }
+    }
+}
+
+// --------------------------------------------------------------------------------------- RwLock
+
+pub(crate) struct RwLock<T: ?Sized> {
+    id: u64,
+    inner: std::sync::RwLock<T>,
+}
+
+pub(crate) struct RwLockReadGuard<'a, T: ?Sized + 'a> {
+    id: u64,
+    guard: Option<std::sync::RwLockReadGuard<'a, T>>,
+    announced: bool,
+}
+
+pub(crate) struct RwLockWriteGuard<'a, T: ?Sized + 'a> {
+    id: u64,
+    guard: Option<std::sync::RwLockWriteGuard<'a, T>>,
+    announced: bool,
+}
+
+impl<T> RwLock<T> {
+    pub(crate) fn new(data: T) -> Self {
+        Self {
+            id: new_id("rwlock", core::any::type_name::<T>()),
+            inner: std::sync::RwLock::new(data),
+        }
+    }
+}
+
+impl<T: Default> Default for RwLock<T> {
+    fn default() -> Self {
+        Self::new(T::default())
+    }
+}
+
+impl<T: ?Sized> RwLock<T> {
+    pub(crate) fn read(&self) -> LockResult<RwLockReadGuard<'_, T>> {
+        let announced = if let Some(h) = hooks() {
+            h.acquire_read(self.id);
+            true
+        } else {
+            false
+        };
+        match self.inner.read() {
+            Ok(guard) => Ok(RwLockReadGuard {
+                id: self.id,
+                guard: Some(guard),
+                announced,
+            }),
+            Err(poison) => Err(PoisonError::new(RwLockReadGuard {
+                id: self.id,
+                guard: Some(poison.into_inner()),
+                announced,
+            })),
+        }
+    }
+
+    pub(crate) fn write(&self) -> LockResult<RwLockWriteGuard<'_, T>> {
+        let announced = if let Some(h) = hooks() {
+            h.acquire_write(self.id);
+            true
+        } else {
+            false
+        };
+        match self.inner.write() {
+            Ok(guard) => Ok(RwLockWriteGuard {
+                id: self.id,
+                guard: Some(guard),
+                announced,
+            }),
+            Err(poison) => Err(PoisonError::new(RwLockWriteGuard {
+                id: self.id,
+                guard: Some(poison.into_inner()),
+                announced,
+            })),
+        }
+    }
+}
+
+impl<T: ?Sized> Deref for RwLockReadGuard<'_, T> {
+    type Target = T;
+
+    fn deref(&self) -> &T {
+        self.guard.as_ref().unwrap()
+    }
+}
+
+impl<T: ?Sized> Drop for RwLockReadGuard<'_, T> {
+    fn drop(&mut self) {
+        self.guard = None;
+        if self.announced
+            && let Some(h) = HOOKS.get()
+        {
+            h.release_read(self.id);
+        }
+    }
+}
+
+impl<T: ?Sized> Deref for RwLockWriteGuard<'_, T> {
+    type Target = T;
+
+    fn deref(&self) -> &T {
+        self.guard.as_ref().unwrap()
+    }
+}
+
+impl<T: ?Sized> DerefMut for RwLockWriteGuard<'_, T> {
+    fn deref_mut(&mut self) -> &mut T {
+        self.guard.as_mut().unwrap()
+    }
+}
+
+impl<T: ?Sized> Drop for RwLockWriteGuard<'_, T> {
+    fn drop(&mut self) {
+        self.guard = None;
+        if self.announced
+            && let Some(h) = HOOKS.get()
+        {
+            h.release_write(self.id);
+        }
+    }
+}
+
+// -------------------------------------------------------------------------------------- Condvar
+
+pub(crate) struct Condvar {
+    id: u64,
+    inner: std::sync::Condvar,
+}
+
+impl Condvar {
+    pub(crate) fn new() -> Self {
+        Self {
+            id: new_id("condvar", ""),
+            inner: std::sync::Condvar::new(),
+        }
+    }
+
+    pub(crate) fn wait<'a, T>(
+        &self,
+        mut guard: MutexGuard<'a, T>,
+    ) -> LockResult<MutexGuard<'a, T>> {
+        let lock = guard.lock;
+        if guard.announced
+            && let Some(h) = hooks()
+        {
+            // Give the std mutex up without announcing a release: the hook releases it as part of
+            // cv_wait, atomically with joining the wait set, and grants it again before returning
+            guard.guard = None;
+            guard.announced = false;
+            drop(guard);
+            h.cv_wait(self.id, lock.id);
+            lock.wrap(lock.inner.lock(), true)
+        } else {
+            let inner = guard.guard.take().unwrap();
+            let announced = guard.announced;
+            guard.announced = false;
+            drop(guard);
+            lock.wrap(self.inner.wait(inner), announced)
+        }
+    }
+
+    pub(crate) fn notify_one(&self) {
+        if let Some(h) = hooks() {
+            h.cv_notify(self.id, false);
+        }
+        self.inner.notify_one();
+    }
+
+    #[allow(dead_code)]
+    pub(crate) fn notify_all(&self) {
+        if let Some(h) = hooks() {
+            h.cv_notify(self.id, true);
+        }
+        self.inner.notify_all();
+    }
+}
+
+// -------------------------------------------------------------------------------------- atomics
+
+pub(crate) mod atomic {
+    use super::{Ordering, hooks, new_id};
+
+    macro_rules! verif_atomic {
+        ($name:ident, $std:ty, $value:ty) => {
+            pub(crate) struct $name {
+                id: u64,
+                inner: $std,
+            }
+
+            impl $name {
+                pub(crate) fn new(value: $value) -> Self {
+                    Self {
+                        id: new_id("atomic", stringify!($name)),
+                        inner: <$std>::new(value),
+                    }
+                }
+
+                pub(crate) fn load(&self, order: Ordering) -> $value {
+                    if let Some(h) = hooks() {
+                        h.atomic(self.id, false);
+                    }
+                    self.inner.load(order)
+                }
+
+                #[allow(dead_code)]
+                pub(crate) fn store(&self, value: $value, order: Ordering) {
+                    if let Some(h) = hooks() {
+                        h.atomic(self.id, true);
+                    }
+                    self.inner.store(value, order);
+                }
+            }
+
+            impl core::fmt::Debug for $name {
+                fn fmt(&self, f: &mut core::fmt::Formatter<'_>) -> core::fmt::Result {
+                    core::fmt::Debug::fmt(&self.inner, f)
+                }
+            }
+
+            impl Default for $name {
+                fn default() -> Self {
+                    Self::new(<$value>::default())
+                }
+            }
+        };
+    }
+
+    verif_atomic!(AtomicBool, core::sync::atomic::AtomicBool, bool);
+    verif_atomic!(AtomicUsize, core::sync::atomic::AtomicUsize, usize);
+
+    impl AtomicUsize {
+        pub(crate) fn fetch_add(&self, value: usize, order: Ordering) -> usize {
+            if let Some(h) = hooks() {
+                h.atomic(self.id, true);
+            }
+            self.inner.fetch_add(value, order)
+        }
+
+        pub(crate) fn fetch_sub(&self, value: usize, order: Ordering) -> usize {
+            if let Some(h) = hooks() {
+                h.atomic(self.id, true);
+            }
+            self.inner.fetch_sub(value, order)
+        }
+    }
+}
